@@ -25,18 +25,21 @@ Lemma add_free_tail occ root : root <> 0 -> forall fs s root' s',
   tables_ok P st s -> Forall (fun f => 1 <= f /\ @PF P f) fs -> sg_label (ls_g s) root = Some GAnd ->
   add_free rc occ fs root s = Some (root', s') ->
   root' = root /\ tables_ok P st s' /\ ext (ls_g s) (ls_g s') [root] /\
-  exists tris, sg_out (ls_g s') root = tris ++ sg_out (ls_g s) root /\ tris_in (ls_g s') tris.
+  (exists tris, sg_out (ls_g s') root = tris ++ sg_out (ls_g s) root /\ tris_in (ls_g s') tris) /\
+  lprov s s' [] /\ tri_grow s s'.
 Proof.
   intros Hr0. induction fs as [|i r IH]; intros s root' s' Hok Hfs Hlr H; cbn [add_free] in H.
   - injection H as <- <-. split; [reflexivity|]. split; [exact Hok|]. split; [apply ext_refl|].
-    exists []. split; [reflexivity|constructor].
+    split; [exists []; split; [reflexivity|constructor]|split; [apply lprov_refl|apply tri_grow_refl]].
   - inversion Hfs as [|? ? [Hi Hpi] Hr]; subst.
     destruct (mem i occ); [now apply IH|].
     apply Nat.eqb_neq in Hr0 as E0. rewrite E0 in H.
     destruct (add_literal_node rc i root s) as [s2|] eqn:E2; [|discriminate].
     destruct (add_literal_node_spec rc i root s s2 Hok Hi Hpi Hlr E2) as [Hok2 [He2 [_ [o [Ho [Hto _]]]]]].
-    destruct (IH s2 root' s' Hok2 Hr (ext_label_some _ _ _ _ _ He2 Hlr) H) as [-> [Hok' [He' [tris [Ht1 Ht2]]]]].
+    destruct (IH s2 root' s' Hok2 Hr (ext_label_some _ _ _ _ _ He2 Hlr) H) as [-> [Hok' [He' [[tris [Ht1 Ht2]] [Pr Gr]]]]].
+    destruct (add_literal_node_S rc _ _ _ _ E2) as [P2 G2].
     split; [reflexivity|]. split; [exact Hok'|]. split; [exact (ext_trans _ _ _ _ He2 He')|].
+    split; [|split; [exact (lprov_trans _ _ _ [] [] P2 Pr Gr)|exact (tri_grow_trans _ _ _ G2 Gr)]].
     exists (tris ++ [o]). split; [rewrite Ht1, Ho, <- app_assoc; reflexivity|].
     apply Forall_app. split; [exact Ht2|]. constructor; [|constructor]. exists i.
     apply (tri_node_ext _ _ [root] i o He'); [|exact Hto].
@@ -52,10 +55,12 @@ Definition free_result (s : lstate) (root' : nat) (s' : lstate) : Prop :=
 
 Lemma add_free_spec occ : forall fs s root' s',
   tables_ok P st s -> sg_alive (ls_g s) 0 = true -> Forall (fun f => 1 <= f /\ @PF P f) fs ->
-  add_free rc occ fs 0 s = Some (root', s') -> tables_ok P st s' /\ free_result s root' s'.
+  add_free rc occ fs 0 s = Some (root', s') ->
+  tables_ok P st s' /\ free_result s root' s' /\ lprov s s' [root'] /\ tri_grow s s'.
 Proof.
   induction fs as [|i r IH]; intros s root' s' Hok H0 Hfs H; cbn [add_free] in H.
-  - injection H as <- <-. split; [exact Hok|now left].
+  - injection H as <- <-. split; [exact Hok|]. split; [now left|].
+    split; [apply (lprov_weaken _ _ []); [intros ? []|apply lprov_refl]|apply tri_grow_refl].
   - inversion Hfs as [|? ? [Hi Hpi] Hr]; subst.
     destruct (mem i occ); [now apply IH|]. cbn [Nat.eqb] in H.
     destruct (add_node rc GAnd (ls_g s)) as [x g1] eqn:Ha.
@@ -86,8 +91,17 @@ Proof.
     assert (Hlx : sg_label (ls_g s1) x = Some GAnd) by exact (ext_label_some _ _ _ _ _ He1 Hlx1).
     destruct (add_literal_node_spec rc i x s1 s2 (conj Hc1 Ht1) Hi Hpi Hlx E2) as [Hok2 [He2 [_ [o [Ho [Hto _]]]]]].
     destruct (add_free_tail occ x Hx0 r s2 root' s' Hok2 Hr (ext_label_some _ _ _ _ _ He2 Hlx) H)
-      as [-> [Hok' [He' [tris [Hr1 Hr2]]]]].
-    split; [exact Hok'|]. right.
+      as [-> [Hok' [He' [[tris [Hr1 Hr2]] [Pr Gr]]]]].
+    destruct (ls_add_edge_S _ _ _ _ E1) as [L1 T1]. destruct (add_literal_node_S rc _ _ _ _ E2) as [P2 G2].
+    assert (P01 : lprov s s1 [x]).
+    { intros y t Hy. rewrite L1 in Hy. cbn [with_g ls_g] in Hy.
+      destruct (add_node_label_cases rc _ _ _ _ _ _ Ha Hy) as [[-> ->]|[_ Hy0]]; [|now left].
+      right. right. right. split; [reflexivity|now left]. }
+    assert (G01 : tri_grow s s1) by (apply tri_grow_eq; exact T1).
+    split; [exact Hok'|]. split; [|split; [|exact (tri_grow_trans _ _ _ (tri_grow_trans _ _ _ G01 G2) Gr)]].
+    2:{ apply (lprov_weaken _ _ (([x] ++ []) ++ [])); [intros y Hy; rewrite !app_nil_r in Hy; exact Hy|].
+        exact (lprov_trans _ _ _ _ _ (lprov_trans _ _ _ _ _ P01 P2 G2) Pr Gr). }
+    right.
     pose proof (ext_trans _ _ _ _ He01' (ext_trans _ _ _ _ He2 He')) as He.
     split; [exact Hxd|]. split; [exact (ext_label_some _ _ _ _ _ (ext_trans _ _ _ _ He2 He') Hlx)|].
     split; [exact (ext_drop_dead _ _ _ _ Hxd He)|].
@@ -115,4 +129,5 @@ Lemma free_result_grow s root' s' : free_result s root' s' -> grow (ls_g s) (ls_
 Proof.
   intros [[-> ->]|[_ [_ [He _]]]]; [apply grow_refl|now apply ext_nil_grow].
 Qed.
+
 End Free.
